@@ -20,14 +20,18 @@ PSchema ==
                                            DSimple("sv", "int", "0"), DSimple("sw", "str", Null) >>),
                         DFunc("g", "user") >>),
      DSec("t", {"MULTI","TITLE"}, << DInt("x", "5"), DIntList("l", <<>>) >>),
-     DFunc("fn", "user") >>
+     DFunc("fn", "user"),
+     (* user-pointer options (value-parsing callback): an unset scalar and a list of two; the built-in *)
+     (* formatting writes nothing for such a value, the frame around it is written all the same        *)
+     DPtr("p"), DPtrList("pl") >>
 
 PreToks ==
   << TkStr("t"), TkStr("a"), TkP("{"), TkStr("x"), TkP("="), TkStr("1"), TkP("}"),
      TkStr("t"), TkStr("b"), TkP("{"), TkStr("l"), TkP("="), TkP("{"), TkStr("3"), TkP("}"), TkP("}"),
      TkStr("sec"), TkP("{"), TkStr("sub"), TkP("{"), TkStr("y"), TkP("="), TkStr("2"), TkP("}"), TkP("}"),
      Tk("cmt", "note", 0), TkStr("i"), TkP("="), TkStr("3"),
-     TkStr("sl"), TkP("="), TkP("{"), TkStr("a b"), TkP(","), TkStr("q\"\\"), TkP("}"), TkEof >>
+     TkStr("sl"), TkP("="), TkP("{"), TkStr("a b"), TkP(","), TkStr("q\"\\"), TkP("}"),
+     TkStr("pl"), TkP("="), TkP("{"), TkStr("u"), TkP(","), TkStr("v"), TkP("}"), TkEof >>
 
 InitRoot == MkSec(Null, InitOpts(PSchema))
 Root0 == RootOf(PRun(PInit(InitRoot, ParseCfg(FALSE, TRUE, FALSE, 0, 0, 0), "buf", FALSE, 0, 0, 0), PreToks))
